@@ -269,28 +269,7 @@ def microdvd_writer(ctx, report, ev):
     report.check(top, "R-INT-FIELD", fn, "frame fields are integers (int() outermost)", None, "2")
 
 
-def resolve_local(fn, expr, depth=0):
-    """Substitute local names that have exactly one assignment in `fn` by
-    their right-hand side (def-use through single-assignment locals)."""
-    if depth > 6:
-        return expr
-    single = {}
-    counts = {}
-    for n in walk_no_nested(fn.node):
-        if isinstance(n, ast.Assign) and len(n.targets) == 1 and isinstance(n.targets[0], ast.Name):
-            counts[n.targets[0].id] = counts.get(n.targets[0].id, 0) + 1
-            single[n.targets[0].id] = n.value
-        elif isinstance(n, (ast.AugAssign,)) and isinstance(n.target, ast.Name):
-            counts[n.target.id] = counts.get(n.target.id, 0) + 2
-    params = set(fn.params)
-
-    class Sub(ast.NodeTransformer):
-        def visit_Name(self, node):
-            if isinstance(node.ctx, ast.Load) and counts.get(node.id) == 1 and node.id not in params:
-                return resolve_local(fn, single[node.id], depth + 1)
-            return node
-    import copy
-    return Sub().visit(copy.deepcopy(expr))
+from ..core.astutil import resolve_local  # noqa: E402  (shared def-use normaliser)
 
 
 def which_instant(fn, expr):
